@@ -12,13 +12,17 @@
      D. for every modelled linter (Model/Nesting.v, Magic.v, Srp.v, RustSafety.v, Dry.v, PrintStmt.v - the models
         whose correspondence with the implementation C01/C02/C16/C17/C03/C19 check) every violation the MODEL emits
         carries the recorded header position of a construct of the right kind of the abstract file;
+     D''. the lazy-ignores line scanner (a TEXT scanner: line numbering, triple-quoted regions, column offset - its source shape
+        is template-checked): what it reports for any per-line regex oracle, exactly; with the file's own lines the property
+        holds; str.splitlines coincides with them on texts whose only line boundary is LF (confinement of the listed deviation);
      E. the renderer bookkeeping scheme and the soundness of the executable judge.
    VALIDATED, not proved (harness/props/c12.py): that CPython / tree-sitter report the recorded positions for the
    rendered text (decorators, multi-line headers, CRLF, no final newline, offsets) - the parser-position oracle. *)
 From Coq Require Import ZArith.
 From TL Require Import Lib.Base Lib.GenTypes Model.LocTypes Gen.LocGen Model.Loc Model.LocRun Actual.LocActual
      Proofs.LocBase Proofs.LocJudge Proofs.LocRender Proofs.LocNesting Proofs.LocMagic Proofs.LocSrp Proofs.LocRust Proofs.LocDry Proofs.LocPrint
-     Gen.LocPatGen Model.LocPat Proofs.LocPat.
+     Gen.LocPatGen Model.LocPat Proofs.LocPat
+     Model.LocLazyTypes Gen.LocLazyGen Model.LocLazy Proofs.LocLazy.
 From TL Require Model.Skel Model.Nesting Model.MagicNum Model.Magic Model.SrpTypes Model.Srp Model.RustSafetyTypes Model.RustSafety
      Model.DryPipe Model.Dry Model.Embed Model.PrintStmt.
 
@@ -194,6 +198,68 @@ Theorem C12_console_report_position : forall methods root l c m, In (l, c, m) (c
   exists n, tsub n root /\ tty n = "call_expression" /\ l = trow n + 1 /\ c = 0 /\ smem m methods = true.
 Proof. exact console_report_position. Qed.
 Print Assumptions C12_console_report_position.
+
+(* ---------------------------------------------------------------- D''. the lazy-ignores line scanner *)
+(* PythonIgnoreDetector.find_ignores / TestSkipDetector.find_skips modelled in full except for the per-line regex search
+   (`find`, an oracle).  Under either flag value: a report is exactly (index + 1, match start + 1, text) of a hit on a line of the
+   list the scanner enumerates that no triple-quoted region covers *)
+Theorem C12_lazy_scanner_reports_exactly : forall q find text r, In r (lazy_scan q find text) <->
+  exists i l h, nth_error (lazy_lines q text) i = Some l /\ In h (find l) /\ inside_region lazy_quotes (lazy_lines q text) i = false
+                /\ r = (i + 1, fst h + 1, snd h).
+Proof. exact lazy_faithful_lines. Qed.
+Print Assumptions C12_lazy_scanner_reports_exactly.
+
+(* the region state the scanner carries is the parity of the unescaped triple quotes on the lines before *)
+Theorem C12_lazy_region_state_is_parity : forall quotes ls,
+  state_after quotes (init_state quotes) ls = map (fun q => Nat.odd (total_count q ls)) quotes.
+Proof. exact state_after_parity. Qed.
+Print Assumptions C12_lazy_region_state_is_parity.
+
+(* flag off (the file's own lines): every report satisfies the property, for every oracle that only returns matches lying on the
+   line it was given *)
+Theorem C12_lazy_ideal_satisfies_the_property : forall find text r, find_sound find ->
+  In r (lazy_scan false find text) -> lrep_ok (lines_of text) r = true.
+Proof. exact lazy_ideal_ok. Qed.
+Print Assumptions C12_lazy_ideal_satisfies_the_property.
+
+Theorem C12_lazy_report_ok_is_the_property : forall f l c t, lrep_ok f (l, c, t) = true ->
+  1 <= l <= nlines f /\ c <= String.length (line_text f l) /\ exists a b, line_text f l = (a ++ t ++ b)%string.
+Proof. exact lrep_ok_means. Qed.
+Print Assumptions C12_lazy_report_ok_is_the_property.
+
+(* str.splitlines (byte-level image on UTF-8 text) and the lines of the file coincide when LF is the only line boundary *)
+Theorem C12_splitlines_agrees_on_lf_only_text : forall s, only_lf s = true -> py_splitlines s = lines_of s.
+Proof. exact splitlines_only_lf. Qed.
+Print Assumptions C12_splitlines_agrees_on_lf_only_text.
+
+(* partial (the full statement is C12_lazy_ideal_satisfies_the_property): the faithful scanner - whatever splitter the source
+   uses - satisfies the property on every text whose only line boundary is LF *)
+Theorem C12_lazy_confined_partial : forall find text r, find_sound find -> only_lf text = true ->
+  In r (lazy_scan true find text) -> lrep_ok (lines_of text) r = true.
+Proof. exact lazy_actual_ok_partial. Qed.
+Print Assumptions C12_lazy_confined_partial.
+
+Theorem C12_lazy_orphaned_is_file_level : forall f, f <> [] -> lazy_orphan_ok f = true.
+Proof. exact lazy_orphan_position. Qed.
+Print Assumptions C12_lazy_orphaned_is_file_level.
+
+Theorem C12_lazy_judge_is_sound : forall tbl text impl b1 b2 b3 b4, judge_lazy tbl text impl = [b1; b2; b3; b4] ->
+  (b1 = true -> impl = lazy_scan true (table_find tbl) text)
+  /\ (b2 = true -> impl = lazy_scan false (table_find tbl) text)
+  /\ (b3 = true -> forall r, In r impl -> lrep_ok (lines_of text) r = true).
+Proof. exact judge_lazy_sound. Qed.
+Print Assumptions C12_lazy_judge_is_sound.
+
+(* non-vacuity: a module docstring that mentions a directive (not reported), a directive after it (reported at its own line,
+   1-based column), a docstring line that closes and reopens nothing; the oracle here finds "# noqa" *)
+Definition ex_lazy_text : string := text_of [""""""""; "Use # noqa sparingly."; """"""""; "import os  # noqa"; "x = 1"].
+Definition ex_lazy_find : string -> list hit := table_find [("import os  # noqa", [(11, "# noqa")]); ("Use # noqa sparingly.", [(4, "# noqa sparingly.")])].
+Example C12_lazy_nonvacuous :
+  lazy_scan false ex_lazy_find ex_lazy_text = [(4, 12, "# noqa")]
+  /\ lazy_scan true ex_lazy_find ex_lazy_text = [(4, 12, "# noqa")]
+  /\ only_lf ex_lazy_text = true
+  /\ forallb (lrep_ok (lines_of ex_lazy_text)) (lazy_scan false ex_lazy_find ex_lazy_text) = true.
+Proof. vm_compute. repeat split; reflexivity. Qed.
 
 (* ---------------------------------------------------------------- E. renderer bookkeeping, judge *)
 Theorem C12_renderer_records_point_at_headers : forall it unit level pre post r,
